@@ -80,6 +80,7 @@ def warm_up():
     from . import world
 
     world.install_entropy_seam()
+    world.install_uninit_seam()
     _WARM = True
 
 
